@@ -42,7 +42,8 @@ def handpicked_configs(scheme):
     elif scheme == "CJJ14.Pi2Lev":
         for lam, B, b, Bp, bp, isz in ((32, 2, 2, 2, 2, 8), (16, 4, 2, 4, 2, 8), (24, 3, 3, 5, 5, 8),
                                        (32, 8, 8, 64, 64, 8), (16, 1, 1, 1, 1, 4), (32, 4, 4, 2, 2, 2),
-                                       (32, 2, 4, 2, 4, 8), (32, 6, 3, 4, 2, 4)):
+                                       (32, 2, 4, 2, 4, 8), (32, 6, 3, 4, 2, 4),
+                                       (32, 4, 4, 5, 5, 8), (16, 4, 3, 5, 4, 8)):
             out.append((f"lam{lam}-B{B}-b{b}-Bp{Bp}-bp{bp}-id{isz}",
                         {"param_lambda": lam, "prf_f_output_length": lam, "param_B": B, "param_b": b,
                          "param_B_prime": Bp, "param_b_prime": bp, "param_identifier_size": isz}))
@@ -315,6 +316,13 @@ def make_db(rng, scheme, cfg, cls, scale=48):
         else:
             lens.pop()
     lens = lens[:cp["max_keywords"]]
+    return db_from_lens(rng, scheme, cfg, lens, cls)
+
+
+def db_from_lens(rng, scheme, cfg, lens, cls="profile", fix_config=True):
+    """Build a database with exactly the given posting-list lengths (caller guarantees they respect capacities)."""
+    cp = caps(scheme, cfg)
+    isz = cp["id_size"]
     zero_rich = cls == "zero-bytes"
     used = set()
     db = {}
@@ -334,10 +342,10 @@ def make_db(rng, scheme, cfg, cls, scale=48):
         db[kw] = ids
     info = {"class": cls, "N": sum(len(v) for v in db.values()), "keywords": len(db),
             "lens": sorted((len(v) for v in db.values()), reverse=True)[:8]}
-    if scheme == "CGKO06.SSE2":
+    if scheme == "CGKO06.SSE2" and fix_config:
         files = len({i for v in db.values() for i in v})
         cfg["param_n"] = files + rng.choice([0, 0, 3])
-    if scheme == "CGKO06.SSE1":
+    if scheme == "CGKO06.SSE1" and fix_config:
         cfg["param_dictionary_size"] = rng.choice([len(db), len(db) + 5, 64]) if "param_dictionary_size_fixed" not in cfg \
             else cfg["param_dictionary_size"]
         cfg["param_dictionary_size"] = max(cfg["param_dictionary_size"], len(db))
